@@ -137,5 +137,10 @@ Definition unmarshal_logout_request (root : node) : res logout_request :=
   do v <- unmarshal_element xml_schema "LogoutRequest" root; Ok (to_logout_request v).
 Definition unmarshal_base_response (root : node) : res base_response :=
   do v <- unmarshal_element xml_schema "UnverifiedBaseResponse" root; Ok (to_base_response v).
+(* the unverified pre-decoders: the struct decoder on the element read DIRECTLY from the received bytes (Schema.view_direct) *)
+Definition unmarshal_base_response_direct (root : node) : res base_response :=
+  do v <- unmarshal_element_direct xml_schema "UnverifiedBaseResponse" root; Ok (to_base_response v).
+Definition unmarshal_logout_response_direct (root : node) : res logout_response :=
+  do v <- unmarshal_element_direct xml_schema "LogoutResponse" root; Ok (to_logout_response v).
 Definition unmarshal_enc_assertion (root : node) : res enc_assertion :=
   do v <- unmarshal_element xml_schema "EncryptedAssertion" root; Ok (to_enc_assertion v).
